@@ -794,7 +794,9 @@ pub fn signed_bitmessage_to_buf(
         return Err(ProtoError::from("unexpected data after the TSIG record"));
     }
     if tsig_rr.dns_class != DNSClass::ANY || tsig_rr.ttl != 0 {
-        return Err(ProtoError::from("TSIG record with CLASS other than ANY or TTL other than 0"));
+        return Err(ProtoError::from(
+            "TSIG record with CLASS other than ANY or TTL other than 0",
+        ));
     }
 
     let tsig = &tsig_rr.data;
